@@ -84,6 +84,7 @@ lit_status = z3.Function("lit_status", Val, I)          # 0 ok, 1 ValueError, 2 
 seq_len = z3.Function("seq_len", I, I)                 # heap sequences (read-only view)
 seq_item = z3.Function("seq_item", I, I, Val)
 map_has = z3.Function("map_has", I, Val, B)
+coll_has = z3.Function("coll_has", I, Val, B)            # membership in a heap list / set / tuple (by content state)
 map_get = z3.Function("map_get", I, Val, Val)
 map_len = z3.Function("map_len", I, I)
 map_key_at = z3.Function("map_key_at", I, I, Val)
